@@ -2574,6 +2574,7 @@ impl<'a> Socket<'a> {
         };
 
         let mut is_zero_window_probe = false;
+        let mut is_fast_retransmit = false;
 
         match self.state {
             // We transmit an RST in the CLOSED state. If we ended up in the CLOSED state
@@ -2630,7 +2631,7 @@ impl<'a> Socket<'a> {
                     repr.seq_number = self.local_seq_no;
                     repr.payload = self.tx_buffer.get_allocated(0, size);
 
-                    self.pending_fast_retransmit = false;
+                    is_fast_retransmit = true;
 
                     0
                 } else {
@@ -2746,6 +2747,12 @@ impl<'a> Socket<'a> {
         // for sure will not be successfully transmitted.
         ip_repr.set_payload_len(repr.buffer_len());
         emit(cx, (ip_repr, repr))?;
+
+        // The fast retransmission is only done once the segment has actually been handed to
+        // the device; if `emit` failed it stays pending and is retried on the next dispatch.
+        if is_fast_retransmit {
+            self.pending_fast_retransmit = false;
+        }
 
         // We've sent something, whether useful data or a keep-alive packet, so rewind
         // the keep-alive timer.
